@@ -275,6 +275,20 @@ func scnReplay(prop string, lookup func(name string) *Scn) func(c *harness.Ctx, 
 			fmt.Fprintln(os.Stderr, "ENGINE-ERROR unknown scenario", r.Scenario)
 			os.Exit(3)
 		}
+		if bs := os.Getenv("VERIF_EXPLORE_BOUND"); bs != "" {
+			// debugging aid: explore the named scenario up to the given bound instead of replaying one schedule
+			var bound int
+			fmt.Sscanf(bs, "%d", &bound)
+			x := &vrt.Explorer{Bound: bound}
+			x.Run = func(ch vrt.Chooser, trace bool) *vrt.Result { return s.Run(ch, trace).R }
+			f := x.Explore()
+			fmt.Printf("explored %s: bound %d, %d executions, %d states, %d outcomes, max choice points %d\n", r.Scenario, x.Stats.BoundDone, x.Stats.Executions, x.Stats.States, len(x.Stats.Outcomes), x.Stats.MaxPoints)
+			if f == nil {
+				return
+			}
+			fmt.Printf("violation at bound %d: %s (%s)\nchoices %v\n", f.Bound, f.V.Sig, f.V.Message, f.Choices)
+			r.Choices = f.Choices
+		}
 		sr := s.Run(&vrt.ReplayChooser{Choices: r.Choices}, true)
 		if tr, ok := sr.Details["trace"].([]string); ok {
 			for _, l := range tr {
